@@ -189,14 +189,17 @@ def check_limiter(chk: Check, repo: Repo) -> None:
                         if any("process_telegram" in tr[i] for i in spawns):
                             problems.append("processing spawned as a task: telegrams could overtake each other")
                         if rate and label == "group":
+                            # the pause of 1 / rate_limit lies between the END of one send and the start of the next: the send
+                            # itself can wait (CEMIHandler's send lock behind a management frame, a reconnect) - a pause started
+                            # before it would be used up there and two telegrams would reach the interface back to back
                             pac = [i for i in spawns if "sleep(1 / self.xknx.rate_limit)" in tr[i]]
-                            if len(pac) != 1 or (outs and pac[0] > outs[0]):
-                                problems.append("a pacing task sleep(1 / rate_limit) must be started before the send")
-                            if prev is not None and ("AWAIT_PACER" not in tr or tr.index("AWAIT_PACER") > (outs[0] if outs else 0) or (pac and tr.index("AWAIT_PACER") > pac[0])):
+                            if len(pac) != 1 or not outs or pac[0] < outs[0]:
+                                problems.append("exactly one pacing task sleep(1 / rate_limit) must be started after the send, whatever its outcome (a pause started before a send that has to wait is used up while it waits)")
+                            if prev is not None and ("AWAIT_PACER" not in tr or tr.index("AWAIT_PACER") > (outs[0] if outs else 0)):
                                 problems.append("the previous pacing task must be awaited before the next send")
                         if (not rate or label == "internal") and (spawns or "AWAIT_PACER" in tr):
                             problems.append("pacing applied although no rate limit / internal address")
-                        if "CANCEL_PACER" in tr:
+                        if "CANCEL_PACER" in tr and not any(t.startswith("SPAWN(") and "sleep(1 / self.xknx.rate_limit)" in t for t in tr[len(tr) - tr[::-1].index("CANCEL_PACER"):]):
                             problems.append("the pacing task is cancelled while telegrams are still flowing (the next send would not be spaced / would await a cancelled task)")
                         pacer_after = p.env.get("self._rate_limiter")
                         if rate and label == "group" and repr(pacer_after) != repr(Obj("Task", "new")):
